@@ -239,3 +239,103 @@ def dep_rows(case):
     for i, r in enumerate(case['rows']):
         rows.append(([r[0]] if ep else []) + [i * w + j for j in range(w)])
     return rows
+
+
+# ----------------------------------------------------------------------------- value correspondence
+
+def mode_of(case):
+    ks = pipes.kinds_in(case['spec'])
+    ints = all(float(v).is_integer() for r in case['rows'] for v in r)
+    return 'int' if ints and ks <= {'poly', 'bilinear', 'const', 'delay', 'split', 'pipe'} else 'str'
+
+
+def value_line(cmd, case, est, mode=None):
+    """Request line for tr / inv / rt on the case's data in int or str mode."""
+    mode = mode or mode_of(case)
+    toks, reg = pipes.tokens(case['spec'], est)
+    if mode == 'int':
+        body = pipes.mat_tokens([[int(v) for v in r] for r in case['rows']], case['ep'])
+        cells = None
+    elif mode == 'str':
+        rows, cells = sym_cells(case)
+        body = pipes.mat_tokens(rows, case['ep'])
+    else:
+        body = pipes.mat_tokens(dep_rows(case), case['ep'])
+        cells = None
+    return f"{cmd} {mode} {case['nx']} {case['nu']} {toks} {body}", cells, reg
+
+
+def items_of(text):
+    """whitespace tokens, with parenthesised S-expressions kept as single items"""
+    items, depth, cur = [], 0, []
+    for t in text.split():
+        cur.append(t)
+        depth += t.count('(') - t.count(')')
+        if depth == 0:
+            items.append(' '.join(cur))
+            cur = []
+    return items
+
+
+def parse_reply_mat(reply):
+    t = items_of(reply)
+    if t[0] != 'ok':
+        return None, reply
+    rows, _ = pipes.parse_mat(t, 1)
+    return rows, None
+
+
+def compare_values(A, reply, case, cells, reg, cols=None, rtol=1e-9):
+    """A: implementation output matrix (with label column iff ep). cols: optional slice of feature columns."""
+    rows, err = parse_reply_mat(reply)
+    if err:
+        return 'model: ' + err[:200]
+    impl = impl_rows(A, case['ep'])
+    if cols is not None:
+        impl = [(l, v[cols]) for l, v in impl]
+        rows = [(l, v[cols]) for l, v in rows]
+    if cells is None:
+        return cmp_int_rows(impl, rows)
+    return cmp_sym_rows(impl, rows, cells, reg, rtol)
+
+
+def _slice_sexp_tokens(toks, cols):
+    """split a row's tokens into top-level S-expressions and slice them"""
+    items, depth, cur = [], 0, []
+    for t in toks:
+        cur.append(t)
+        depth += t.count('(') - t.count(')')
+        if depth == 0:
+            items.append(' '.join(cur))
+            cur = []
+    return items[cols]
+
+
+def eq_delays(spec):
+    """state and input delays agree everywhere and split branches lose equally (oracle-side notion of
+    'the whole episode comes back')"""
+    k = spec['k']
+    if k == 'delay':
+        return spec['dx'] == spec['du']
+    if k == 'split':
+        return (all(eq_delays(s) for s in spec['a'] + spec['b'])
+                and sum(pipes.loss(s) for s in spec['a']) == sum(pipes.loss(s) for s in spec['b']))
+    if k == 'pipe':
+        return all(eq_delays(s) for s in spec['ss'])
+    return True
+
+
+def float_case(rng, case, lo=-2.0, hi=2.0):
+    """same structure, fresh random float data (for oracles)"""
+    c = dict(case)
+    ep = case['ep']
+    rows = []
+    for r in case['rows']:
+        body = [rng.uniform(lo, hi) for _ in range(case['nx'] + case['nu'])]
+        rows.append(([r[0]] if ep else []) + body)
+    c['rows'] = rows
+    return c
+
+
+def episodes(A, ep):
+    return {int(l): Xe for l, Xe in pykoop.split_episodes(np.asarray(A, dtype=float), episode_feature=ep)}
